@@ -332,6 +332,13 @@ func (cc *Session) Run() {
 		cc.manager.GetStatisticManager().AddReadFlowCount(cc.namespace, len(data))
 		cc.executor.SetContextNamespace()
 		cc.clearKsConns(cc.executor.nsChangeIndexOld)
+		// outside a transaction the connections pinned under the previous
+		// configuration are gone now: what this command pins belongs to the
+		// current one and must neither be dropped at the end of the command nor
+		// get the session closed for starting a transaction
+		if !cc.executor.isInTransaction() {
+			cc.executor.nsChangeIndexOld = cc.executor.GetNamespace().namespaceChangeIndex
+		}
 
 		var cmd byte
 		var rs Response
